@@ -57,6 +57,11 @@ def gen_cases(rng, tier, count=None):
                 # cheap recommendations: ask after every round (a wrong answer may exist only in the one round in
                 # which an expansion has left unevaluated cells behind); the other half keeps sparse queries
                 c["queries"] = list(range(T))
+            if c["algo"] in ("DOO", "DOO_delta", "SOO", "StoSOO") and rng.random() < 0.3:
+                # recommendation queries while an evaluation is pending (a progress log): their answers are not
+                # judged, the recommendations asked later are
+                c["midqueries"] = list(range(T)) if rng.random() < 0.5 else sorted(
+                    int(x) for x in rng.integers(0, T, size=int(rng.integers(1, 12))))
             if a_is_stroquool(c):
                 # the validation phase is short and early (rounds ~45-62 of n = 1000): ask after every round; queries
                 # before a candidate exists raise (known finding of C01) and are skipped.  Every second run asks at
